@@ -22,8 +22,9 @@
 (*                        it passed to LookupByValue earlier.              *)
 (*                                                                         *)
 (* The context state is the four fields of zed.Context: byID, toType,      *)
-(* toValue (bytes + an owner tag: 0 = owned by the context, -1 = a heap    *)
-(* slice nobody else holds, b > 0 = alias of caller buffer b), typedefs.   *)
+(* toValue (bytes + an owner tag: 0 = owned by the context; since commit   *)
+(* a51bcc8de LookupByValue clones the caller's bytes and keeps the value   *)
+(* the context already owns, so no other tag occurs), typedefs.            *)
 (*                                                                         *)
 (* Serialized type values are sequences of string tokens which the Go      *)
 (* harness maps 1:1 to the real bytes ("rec" -> 30, counts -> uvarint,     *)
@@ -180,11 +181,12 @@ VARIABLES
   ncalls,   \* calls started so far (also numbers the caller buffers)
   live,     \* caller buffers that were passed to LookupByValue and not yet overwritten
   taint,    \* ghost: names of the modelled defects that have fired
+  aliases,  \* ghost: keys of toType that are other encodings of their type (entered by LookupByValue)
   turn,     \* 0, or the process that must move next (Gran = "hook")
   h         \* history (hidden by VIEW): the events so far
 
-vars == <<cx, prog, stk, cur, ldefs, racy, ncalls, live, taint, turn, h>>
-View == <<cx, prog, stk, cur, ldefs, racy, ncalls, live, taint, turn>>
+vars == <<cx, prog, stk, cur, ldefs, racy, ncalls, live, taint, aliases, turn, h>>
+View == <<cx, prog, stk, cur, ldefs, racy, ncalls, live, taint, aliases, turn>>
 
 NoCall == [m |-> "none", ot |-> NoT, nm |-> "", b |-> 0]
 EmptyCx == [byID |-> <<>>, toType |-> <<>>, toValue |-> <<>>, typedefs |-> [x \in TypeNames |-> 0]]
@@ -391,7 +393,7 @@ Exec(c, pr0, st0, ld, decoding, wasRacy) ==
       ins == sk.pr[1]
       rest == Tail(sk.pr)
       st == sk.st
-      base == [c |-> c, st |-> st, pr |-> rest, rb |-> <<>>, ld |-> ld, race |-> FALSE, t |-> {}] IN
+      base == [c |-> c, st |-> st, pr |-> rest, rb |-> <<>>, ld |-> ld, race |-> FALSE, t |-> {}, ak |-> {}] IN
   CASE ins.op \in {"rec", "arr", "set", "err", "map", "union", "enum", "named"} ->
          LET args == SubSeq(st, Len(st) - ins.n + 1, Len(st))
              kids == IF ins.op = "union" THEN SortIds(c, args) ELSE args
@@ -414,22 +416,25 @@ Exec(c, pr0, st0, ld, decoding, wasRacy) ==
          IF ins.s \in DOMAIN c.toType THEN [base EXCEPT !.st = <<c.toType[ins.s]>>, !.pr = <<>>]
          ELSE base
     [] ins.op = "enter" ->                                \* last section of LookupByValue
-         LET typ == st[Len(st)]
-             old == c.toValue[typ] IN
-         \* c.toValue[typ] = tv ; c.toType[string(tv)] = typ  -- the caller's slice is
-         \* retained and replaces the bytes the context owned.
-         [base EXCEPT !.c = [c EXCEPT !.toValue = (typ :> [b |-> ins.s, o |-> ins.n]) @@ @,
+         LET typ == st[Len(st)] IN
+         \* if _, ok := c.toValue[typ]; !ok { c.toValue[typ] = slices.Clone(tv) }
+         \* c.toType[string(tv)] = typ
+         \* -- the value the context owns is kept (tv may be another valid
+         \* encoding of the same type: it only becomes an alias key) and the
+         \* caller's slice is never retained.
+         [base EXCEPT !.c = [c EXCEPT !.toValue = IF typ \in DOMAIN @ THEN @ ELSE (typ :> [b |-> ins.s, o |-> 0]) @@ @,
                                        !.toType = (ins.s :> typ) @@ @],
+                      !.ak = IF TVid(c.byID, typ) # ins.s THEN {ins.s} ELSE {},
                       \* a call that lost the typedef race caches its wrong result under the
                       \* key of the type it was asked for: the cache is poisoned for good
-                      !.t = (IF old.b # ins.s THEN {"noncanon"} ELSE {}) \cup (IF wasRacy THEN {"poison"} ELSE {})]
+                      !.t = IF wasRacy THEN {"poison"} ELSE {}]
 
 \* A whole call without preemption (Gran = "call").
-RECURSIVE RunAll(_, _, _, _, _, _, _)
-RunAll(c, pr, st, ld, decoding, race, t) ==
+RECURSIVE RunAll(_, _, _, _, _, _, _, _)
+RunAll(c, pr, st, ld, decoding, race, t, ak) ==
   LET r == Exec(c, pr, st, ld, decoding, race) IN
-  IF r.pr = <<>> THEN [r EXCEPT !.race = race \/ r.race, !.t = t \cup r.t]
-  ELSE RunAll(r.c, r.pr, r.st, r.ld, decoding, race \/ r.race, t \cup r.t)
+  IF r.pr = <<>> THEN [r EXCEPT !.race = race \/ r.race, !.t = t \cup r.t, !.ak = ak \cup r.ak]
+  ELSE RunAll(r.c, r.pr, r.st, r.ld, decoding, race \/ r.race, t \cup r.t, ak \cup r.ak)
 
 \* --------------------------------------------------------------- behaviour
 Snap(c) == [nodes |-> c.byID,
@@ -446,7 +451,7 @@ Init ==
   /\ cur = [p \in Procs |-> NoCall]
   /\ ldefs = [p \in Procs |-> [x \in TypeNames |-> 0]]
   /\ racy = [p \in Procs |-> FALSE]
-  /\ ncalls = 0 /\ live = {} /\ taint = {} /\ turn = 0 /\ h = <<>>
+  /\ ncalls = 0 /\ live = {} /\ taint = {} /\ aliases = {} /\ turn = 0 /\ h = <<>>
 
 Idle(p) == cur[p] = NoCall
 UsesBuf(call) == call.m \in {"value", "raw"}
@@ -456,13 +461,14 @@ Call(p, call, nrm) ==
   /\ Gran = "call" /\ ncalls < MaxCalls
   /\ CallEnabled(nrm, call)
   /\ LET b == IF UsesBuf(call) THEN FreeBuf(cx, live, {}) ELSE 0
-         r == RunAll(cx, CallProg(nrm, call, b), <<>>, [x \in TypeNames |-> 0], call.m # "fields", FALSE, {})
+         r == RunAll(cx, CallProg(nrm, call, b), <<>>, [x \in TypeNames |-> 0], call.m # "fields", FALSE, {}, {})
          ev == [e |-> "call", p |-> p, m |-> call.m, ot |-> call.ot, nm |-> call.nm, b |-> b,
                 fin |-> TRUE, r |-> r.st[Len(r.st)], rb |-> r.rb, racy |-> r.race] IN
      /\ cx' = r.c
      /\ ncalls' = ncalls + 1
      /\ live' = IF UsesBuf(call) THEN live \cup {b} ELSE live
      /\ taint' = taint \cup r.t
+     /\ aliases' = IF call.m = "reset" THEN {} ELSE aliases \cup r.ak
      /\ h' = Append(h, ev)
      /\ Emit(h', cx', taint')
   /\ UNCHANGED <<prog, stk, cur, ldefs, racy, turn>>
@@ -480,7 +486,7 @@ Start(p, call, nrm) ==
   /\ ldefs' = [ldefs EXCEPT ![p] = [x \in TypeNames |-> 0]]
   /\ racy' = [racy EXCEPT ![p] = FALSE]
   /\ turn' = IF Gran = "hook" THEN p ELSE 0
-  /\ UNCHANGED <<cx, taint, live>>
+  /\ UNCHANGED <<cx, taint, aliases, live>>
 
 \* One mutex section of process p.
 Step(p) ==
@@ -499,6 +505,7 @@ Step(p) ==
      /\ ldefs' = [ldefs EXCEPT ![p] = r.ld]
      /\ racy' = [racy EXCEPT ![p] = IF fin THEN FALSE ELSE @ \/ r.race]
      /\ taint' = taint \cup r.t
+     /\ aliases' = IF cur[p].m = "reset" THEN {} ELSE aliases \cup r.ak
      /\ turn' = IF yield THEN 0 ELSE p
      /\ h' = Append(h, ev)
      \* the real state can be observed (and compared) only where the call is parked or done
@@ -507,17 +514,17 @@ Step(p) ==
      /\ live' = IF fin /\ UsesBuf(cur[p]) THEN live \cup {cur[p].b} ELSE live
   /\ UNCHANGED ncalls
 
-\* The caller reuses a byte slice it handed to LookupByValue: every toValue
-\* entry that aliases it now reads garbage.
+\* The caller reuses a byte slice it handed to LookupByValue.  The context
+\* holds no reference to it (owner tags are all 0), so nothing changes; the
+\* harness overwrites the real buffer and re-reads every type value.
 ReuseBuffer(b) ==
   /\ Reuse /\ turn = 0 /\ b \in live
   /\ live' = live \ {b}
   /\ LET hit == {i \in Ids(cx) : cx.toValue[i].o = b} IN
      /\ cx' = [cx EXCEPT !.toValue = [i \in DOMAIN @ |-> IF i \in hit THEN [@[i] EXCEPT !.b = <<"garbage">>] ELSE @[i]]]
-     /\ taint' = IF hit # {} THEN taint \cup {"alias"} ELSE taint
   /\ h' = Append(h, [e |-> "reuse", b |-> b, fin |-> FALSE])
-  /\ Emit(h', cx', taint')
-  /\ UNCHANGED <<prog, stk, cur, ldefs, racy, ncalls, turn>>
+  /\ Emit(h', cx', taint)
+  /\ UNCHANGED <<prog, stk, cur, ldefs, racy, ncalls, turn, taint, aliases>>
 
 Next == LET nrm == NormIds(cx) IN
         \/ \E p \in Procs, call \in Calls : Call(p, call, nrm) \/ Start(p, call, nrm)
@@ -550,17 +557,15 @@ UnionOrderInsensitive ==
 
 \* The type value the context hands out is the serialization of the type's
 \* structure -- always, in particular after ReuseBuffer and after lookups by
-\* value.
-ValuePure ==
-  (taint \cap {"alias", "noncanon"} = {}) =>
-     \A i \in Ids(cx) : cx.toValue[i].b = TVid(cx.byID, i)
-\* The part that holds even with the defects: bytes the context owns are right.
-OwnedPure == \A i \in Ids(cx) : cx.toValue[i].o = 0 => cx.toValue[i].b = TVid(cx.byID, i)
+\* value in any encoding.
+ValuePure == \A i \in Ids(cx) : cx.toValue[i].o = 0 /\ cx.toValue[i].b = TVid(cx.byID, i)
 
-\* Every key of toType denotes its type (decoding the key yields the type).
+\* Every key of toType denotes its type: it is the serialization of the type
+\* or an alias entered by LookupByValue for another encoding of it (whose
+\* decoding to that type is what DecodeCorrect checked when it was entered).
 KeysDenote ==
-  (taint \cap {"noncanon", "poison"} = {}) =>
-     \A key \in DOMAIN cx.toType : TVid(cx.byID, cx.toType[key]) = key
+  "poison" \notin taint =>
+     \A key \in DOMAIN cx.toType : key \in aliases \/ TVid(cx.byID, cx.toType[key]) = key
 
 \* RoundTrip / DecodeCorrect: every finished call that denotes a type returned
 \* a type of exactly that structure -- by fields, by value, by translation and
@@ -575,7 +580,7 @@ DecodeCorrect == (h # <<>> /\ h[Len(h)].e \in {"step", "call"}) => Denotes(h[Len
 
 \* LookupTypeValue returns the serialization of the structure.
 TvalCorrect ==
-  (taint \cap {"alias", "noncanon"} = {} /\ h # <<>> /\ h[Len(h)].e \in {"step", "call"} /\ h[Len(h)].m = "tval") =>
+  (h # <<>> /\ h[Len(h)].e \in {"step", "call"} /\ h[Len(h)].m = "tval") =>
         h[Len(h)].rb = TVid(cx.byID, h[Len(h)].r)
 
 \* Complete behaviours for PrintMode = "final".
